@@ -108,6 +108,9 @@ const PROBES: &[&str] = &[
     "area_wider_than_255",
     "area_over_65535_pixels",
     "several_ops_on_same_adapter_instances",
+    "colour_stream_next_then_for_each",
+    "pixel_stream_for_each",
+    "size_hint_compared_with_observed_end",
 ];
 
 const FAULTS: &[&str] = &["short_stream", "surplus_stream", "unbounded_stream"];
@@ -348,6 +351,7 @@ fn run_history<C: SimColor>(sc: &Scenario, opts: &Opts) -> RunOut {
         dev.st.guard_violation = None;
         crate::dev::take_hint_breach();
         crate::dev::take_unbounded_abort();
+        crate::dev::take_reach();
 
         let mut v = OpVisitor { ops: &tops, boxes: Vec::new(), top_box_after: None };
         let run_op = !crop_empty;
@@ -377,6 +381,11 @@ fn run_history<C: SimColor>(sc: &Scenario, opts: &Opts) -> RunOut {
             r.map(|_| Ok(()))
         };
         out.sub_evals += 1;
+        for (i, n) in crate::dev::take_reach().iter().enumerate() {
+            if *n > 0 {
+                out.probes |= probe(["colour_stream_next_then_for_each", "pixel_stream_for_each", "size_hint_compared_with_observed_end"][i]);
+            }
+        }
         if crate::dev::take_unbounded_abort() {
             // an unbounded internal-iteration consumer met a stream that did not end: legal for the
             // library (fill_contiguous takes endless streams), so nothing can be concluded
@@ -700,7 +709,7 @@ impl Property for C03 {
         "operations_checked"
     }
     fn rule(&self) -> &'static str {
-        "one seeded history = device (arbitrary box incl. empty / non-origin, capability set, discipline) + 1..6 steps, each an adapter stack (depth 0..3, rebuilt or truncated between steps) and one operation (draw_iter with unordered/duplicate/outside points, fill_contiguous with empty/short/exact/surplus/unbounded streams, fill_solid, clear); after every step: device memory == reference model, no write outside the clip region reached the device, every layer's bounding_box() == model. distinct = 64-bit hash of the decoded history; non-trivial = at least one device call changed at least one pixel"
+        "one seeded history = device (arbitrary box incl. empty / non-origin, capability set, discipline) + 1..6 steps, each an adapter stack (depth 0..3, rebuilt or truncated between steps) and one operation (draw_iter with unordered/duplicate/outside points, fill_contiguous with empty/short/exact/surplus/unbounded streams, fill_solid, clear); after every step: device memory == reference model, no write outside the clip region reached the device, every layer's bounding_box() == model, no stream handed down contradicts its own size_hint() (devices and the buffering shim consume with next / nth / for_each, also mixed on one stream). distinct = 64-bit hash of the decoded history; non-trivial = at least one device call changed at least one pixel"
     }
     fn assumptions(&self) -> Vec<&'static str> {
         vec![
